@@ -99,6 +99,56 @@ void h_zck_write(void) {
 }
 
 
+/* ---- comp_write: hands exactly (src, src_size) to the compress hook, indexes exactly what it writes, reports
+ * src_size only if every step succeeded (C01, C12).  Full view of the contract (node contents, ghost I/O and
+ * hash-coverage models); compress hook, write_data, index_add_to_chunk, hash_update by contract. ------------- */
+void h_comp_write(void) {
+    IN_w in = nondet_IN_w();
+    zckCtx *zck = mk_writer(&in);
+    char *src = malloc(in.n);
+    V_ASSUME(src != NULL);
+    g_src_base = src; g_next_off = 0; g_track = 1; g_from_write = 0;
+    int nw = zck->no_write;
+    ssize_t r = comp_write(zck, src, in.n);
+    V_COVER(r > 0 && zck->comp.type == ZCK_COMP_NONE && nw == 0 && in.wi_live);
+    V_COVER(r > 0 && zck->comp.type == ZCK_COMP_ZSTD && !in.wi_live);
+    V_COVER(r > 0 && nw != 0 && zck->has_uncompressed_source != 0);
+    V_COVER(r == -1 && in.any.error_state == 0 && in.any.mode == ZCK_MODE_WRITE && zck->error_state == 2);
+    V_COVER(r == 0);
+}
+
+/* ---- comp_end_chunk(zck, force) and its API wrapper zck_end_chunk (C01: finished or refused with nothing
+ * changed, forced end never refused; C12: failed write reported; C16: rolling hash discarded) ---------------- */
+void h_comp_end_chunk(void) {
+    IN_w in = nondet_IN_w();
+    zckCtx *zck = mk_writer(&in);
+    g_src_base = NULL; g_next_off = 0; g_track = 1; g_from_write = 0;
+    g_bz_have = in.fh_live; g_same = (unsigned)in.watch;          /* arbitrary rolling-hash ghost state */
+    bool force = in.last_live ? true : false;
+#ifdef VERIF_EC_FORCE
+    force = in.k1 & 1;
+#endif
+    size_t dc0 = zck->comp.dc_data_size, cnt0 = zck->index.count; int started0 = zck->comp.started, min0 = zck->chunk_min_size;
+#ifdef VERIF_EC_WRAPPER
+    ssize_t r = zck_end_chunk(zck);
+    force = false;
+#else
+    ssize_t r = comp_end_chunk(zck, in.k1 & 1);
+    force = in.k1 & 1;
+#endif
+    V_COVER(r > 0 && started0 && zck->index.count == cnt0 + 1 && zck->comp.type == ZCK_COMP_ZSTD);       /* finished */
+    V_COVER(r > 0 && started0 && zck->index.count == cnt0 + 1 && zck->comp.type == ZCK_COMP_NONE);
+    V_COVER(r == 0 && started0);
+    V_COVER(r == -1 && in.any.error_state == 0 && in.any.mode == ZCK_MODE_WRITE && started0 && dc0 > 0);
+#ifndef VERIF_EC_WRAPPER
+    V_COVER(r > 0 && force && started0 && dc0 < (size_t)min0 && zck->index.count == cnt0 + 1);        /* forced short last chunk */
+#endif
+    V_COVER(r > 0 && !force && started0 && zck->index.count == cnt0 && dc0 > 0);                      /* refused */
+#ifndef VERIF_EC_STARTED
+    V_COVER(r == 0 && !started0);
+#endif
+}
+
 /* ---- comp_init, write mode: effective chunk bounds (C16), termination precondition and dictionary entry (C01) ---- */
 void h_comp_init_w(void) {
     IN_w in = nondet_IN_w();
